@@ -346,7 +346,12 @@ def make_writer(cfg, chdir, uuid="verif-uuid", path=None):
         dt = dt.name
     elif k == 3 and dt.isnative:
         dt = dt.type
-    return digital_rf.DigitalRFWriter(path if path is not None else common.path_form(chdir), dt, cfg.sc, cfg.fc, cfg.start, cfg.n, cfg.d, uuid,
+    start = cfg.start
+    if _DT[0] % 3 == 1:
+        start = np.uint64(start)          # indices are often numpy scalars in callers' code (exact for any uint64)
+    elif _DT[0] % 3 == 2 and start < 2 ** 63:
+        start = np.int64(start)
+    return digital_rf.DigitalRFWriter(path if path is not None else common.path_form(chdir), dt, cfg.sc, cfg.fc, start, cfg.n, cfg.d, uuid,
                                       cfg.comp, cfg.cksum, cfg.is_complex, cfg.nsub, cfg.cont, False)
 
 
@@ -439,7 +444,10 @@ def impl_stepper(cfg, ops, chdir, hook=None, pform=None):
         before = hook("before", i, op, w) if hook else None
         try:
             if op[0] == "w":
-                ret = w.rf_write(input_form(cfg, enc(cfg, range(op[3], op[3] + op[2])), op[3]), op[1])
+                ns = op[1]
+                if ns is not None and ns >= 0 and (i + op[3]) % 3 == 1:
+                    ns = np.uint64(ns) if (i + op[3]) % 2 else np.int64(ns)
+                ret = w.rf_write(input_form(cfg, enc(cfg, range(op[3], op[3] + op[2])), op[3]), ns)
             elif op[0] == "b":
                 ret = w.rf_write_blocks(input_form(cfg, enc(cfg, range(op[2], op[2] + op[1])), op[2]),
                                         index_form(op[3], op[2]), index_form(op[4], op[2] + 1))
